@@ -17,7 +17,12 @@ Python → Lean
   `Param.name : Nat` (an identifier; the harness uses 0 ↦ 'a', 1 ↦ 'b', …, order-preserving),
   `Param.kind` one of the 5 `inspect.Parameter` kinds, `Param.default : Option Nat`
   (`none` = `Parameter.empty`)
-* values are opaque ids (`Nat`); a call is `Call.args : List Nat` (positionals) and
+* values are opaque ids (`Nat`): the model ASSUMES `filter_args` only moves argument and default values
+  and never compares, truth-tests or hashes one (`param.default is not param.empty` is an identity
+  test; `sorted(kwargs.items())` never reaches the values because the names differ). The harness
+  checks this assumption: every generated case is also run with each value a distinct exotic object
+  (mock.ANY, NaN, falsy, `__eq__` returning non-bools or raising, …) and the bound values are compared
+  by identity with what Python binds; a call is `Call.args : List Nat` (positionals) and
   `Call.kwargs : List (Nat × Nat)` (a `dict`: association list, keys distinct — `CallWF`)
 * Python `dict`: association list with `dget` (`d[k]` / `k in d`), `dset` (`d[k] = v`: replace in
   place or append — insertion order as in CPython), `dpop`
